@@ -68,6 +68,7 @@ theorem core (c : Class) (env : Env) (sp : Special) (outs refs : List Fixed64)
   | ok =>
     cases c with
     | coinbase => exact absurd rfl hc
+    | refused => exact hcont (by simp [specialStep])
     | bare => exact hcont (by simp [specialStep])
     | plain => exact hcont (by simp [specialStep])
     | plainOut => exact hcont (by simp [specialStep])
@@ -146,6 +147,7 @@ theorem inputOK_distinct (c : Class) (env : Env) (ins : List In)
   case coinbase =>
     match ins, h with
     | [i], _ => simp
+  case refused => cases h
   case zero => exact hnil (by simpa using h)
   case sidePow =>
     rcases Bool.or_eq_true _ _ |>.mp h with h | h
